@@ -299,3 +299,68 @@ Theorem C01_pipeline_examples :
                  = Some (props, [121%N] :: [[120%N]]) /\ map fst props = [[120%N]; [121%N]]).
 Proof. exact pipeline_examples. Qed.
 Print Assumptions C01_pipeline_examples.
+
+(* ---- the value side: the chain a generated container runs through between the strategy and the case
+   (get_parameters_strategy: map(serialize), filter(is_valid_path etc), map(quote_all), map(jsonify)), all locations ---- *)
+
+(* every container that LEAVES the chain is the generated container, entry by entry, up to the string coercion of the
+   location: header / cookie str(value); query the same string (true / false / null for bool / None); path a text whose
+   percent-decoding (unquote_plus) is the UTF-8 encoding of the generated string *)
+Theorem C01_value_chain_preserves : forall l skip c c',
+  run_vsteps (value_chain l skip) c = Some c' -> all_coerced l c c' = true.
+Proof. exact value_chain_preserves. Qed.
+Print Assumptions C01_value_chain_preserves.
+
+(* the chain is a per-value map (no value depends on another one, none is dropped or added) and a filter only removes draws *)
+Theorem C01_value_chain_is_map_and_filters_only_remove :
+  (forall l skip c c', run_vsteps (value_chain l skip) c = Some c' -> c' = map_vals (chain_fun l) c) /\
+  (forall l c c', apply_vstep (VFilter l) c = Some c' -> c' = c /\ forallb (entry_valid l) c = true).
+Proof. split; [exact value_chain_is_map|exact filter_only_removes]. Qed.
+Print Assumptions C01_value_chain_is_map_and_filters_only_remove.
+
+(* header / cookie / query: a string in the case whose source is a generated string IS that string, so it is accepted by
+   every declared schema that accepts the generated value (all schemas d, all category tables) *)
+Theorem C01_value_chain_strings_identical : forall catp l skip c c' n s',
+  l <> LPath -> run_vsteps (value_chain l skip) c = Some c' -> In (n, GStr s') c' ->
+  exists g, In (n, g) c /\ coerced l g (GStr s') = true /\
+            (forall s, g = GStr s -> s' = s /\ forall d, decl_accepts catp d s -> decl_accepts catp d s').
+Proof. exact value_chain_strings_identical. Qed.
+Print Assumptions C01_value_chain_strings_identical.
+
+(* the percent-quoting of the path location loses nothing: for ALL strings *)
+Theorem C01_path_quoting_roundtrip : forall s, unquote_plus_bytes (quote_plus s) = utf8 s.
+Proof. exact unquote_quote_plus. Qed.
+Print Assumptions C01_path_quoting_roundtrip.
+
+(* what the header filter guarantees about the first character - by REJECTING the draw, never by changing the value *)
+Theorem C01_header_filter_no_leading_space : forall l n c s,
+  is_header_loc l = true -> entry_valid l (n, GStr (c :: s)) = true -> py_space c = false.
+Proof. exact header_entry_no_leading_space. Qed.
+Print Assumptions C01_header_filter_no_leading_space.
+
+(* regression sentinel (what the seeded change C01_f does): str.lstrip() between the serializer and the filter.  The header
+   value VT + abcdefg is valid for minLength 8; the chain of the code discards the draw; the seeded chain lets a container
+   through that is NOT the generated one up to coercion, and its value violates the declared minLength *)
+Theorem C01_strip_before_filter_sentinel_refuted : forall catp,
+  exists c', run_vsteps (seeded_value_chain LHeader false) c_vt7 = Some c' /\
+             run_vsteps (value_chain LHeader false) c_vt7 = None /\
+             all_coerced LHeader c_vt7 c' = false /\
+             decl_accepts catp d_min8 s_vt7 /\
+             forall n s', In (n, GStr s') c' -> ~ decl_accepts catp d_min8 s'.
+Proof. exact seeded_strip_refuted. Qed.
+Print Assumptions C01_strip_before_filter_sentinel_refuted.
+
+(* non-vacuity: containers that go through (str() of an integer and a bool in a header, quoting of a space / e-acute and
+   null in a path, a leading vertical tab kept as it is in a query), one that is discarded (slash in a path), and the
+   skip-filter branch of plain string headers *)
+Theorem C01_value_chain_examples :
+  run_vsteps (value_chain LHeader false) [([88; 45; 65]%N, GStr [97; 32; 98]%N); ([88; 45; 66]%N, GInt (-12)); ([88; 45; 67]%N, GBool true)]
+    = Some [([88; 45; 65]%N, GStr [97; 32; 98]%N); ([88; 45; 66]%N, GStr [45; 49; 50]%N); ([88; 45; 67]%N, GStr [84; 114; 117; 101]%N)] /\
+  run_vsteps (value_chain LPath false) [([105]%N, GStr [97; 32; 233; 46]%N); ([107]%N, GNull)]
+    = Some [([105]%N, GStr [97; 43; 37; 67; 51; 37; 65; 57; 46]%N); ([107]%N, GStr [110; 117; 108; 108]%N)] /\
+  run_vsteps (value_chain LPath false) [([105]%N, GStr [97; 47]%N)] = None /\
+  run_vsteps (value_chain LQuery false) [([113]%N, GStr [11; 97]%N); ([114]%N, GBool false)]
+    = Some [([113]%N, GStr [11; 97]%N); ([114]%N, GStr [102; 97; 108; 115; 101]%N)] /\
+  run_vsteps (value_chain LHeader true) c_vt7 = Some c_vt7.
+Proof. exact value_chain_examples. Qed.
+Print Assumptions C01_value_chain_examples.
